@@ -9,6 +9,11 @@ C05 = {
                            [NOW, "deadline: " + INST, "request id"], covers=3),
     "c05_queueing_counts": m("time spent queued before transmission counts against the deadline: due time = transmission time + timer == deadline", [NOW, "deadline: " + INST, "queueing delay: any u32 s"], covers=3),
 }
+C06 = {
+    "c05_time_until_exact": C05["c05_time_until_exact"],
+    "c16_server_arming_exact": m("the timeout the server arms its DelayQueue with (expression extracted from server/in_flight_requests.rs::start_request): never later than the deadline, exactly at it for spans <= 365 days, zero when the deadline already passed on arrival", [NOW, "deadline: " + INST, "request id"], covers=3),
+    "c06_server_late_registration": m("a request registered after any delay still expires at its own deadline: registration time + timer == deadline", [NOW, "deadline: " + INST, "delay: any u32 s + ns"], covers=3),
+}
 C16 = {
     "c16_server_arming_exact": m("server-side timer argument (server/in_flight_requests.rs::start_request): same exactness", [NOW, "deadline: " + INST], covers=3),
     "c16_k2_client_timer_precondition": m("K2 client: for every caller-chosen deadline the armed timeout satisfies DelayQueue::insert's no-panic precondition (Instant overflow, wheel range 2^36-1 ms), for every queue age <= 30 y and wheel lag <= 400 d",
